@@ -66,6 +66,8 @@ def gen_case(g):
                     op["reset"] = True
             elif fail_node is not None and g.chance(0.4):
                 op["fail_step"] = g.randint(0, op["T"] - 1)
+                # the failure is an ordinary error or an interruption (Ctrl-C in a notebook): both end the operation part-way
+                op["fail_kind"] = g.choice(["RuntimeError", "RuntimeError", "KeyboardInterrupt"])
         else:
             op["to_state"] = g.chance(0.3)
         ops.append(op)
@@ -79,18 +81,22 @@ class FailCtl:
         self.node = node
         self.count = 0
         self.fail_at = None
+        self.kind = "RuntimeError"
         orig = node._forward
 
         def fwd(nd, x, *a, **kw):
             self.count += 1
             if self.fail_at is not None and self.count == self.fail_at:
                 self.fail_at = None
+                if self.kind == "KeyboardInterrupt":
+                    raise KeyboardInterrupt("injected failure")
                 raise RuntimeError("injected failure")
             return orig(nd, x, *a, **kw)
         node._forward = fwd
 
-    def arm(self, k):
+    def arm(self, k, kind="RuntimeError"):
         self.fail_at = self.count + k + 1
+        self.kind = kind
 
     def disarm(self):
         self.fail_at = None
@@ -139,7 +145,7 @@ def exec_op(b, case, op, X, fs, ts, ctl):
     if fs is not None:
         kw["from_state"] = fsarg(fs)
     if "fail_step" in op and ctl is not None:
-        ctl.arm(op["fail_step"])
+        ctl.arm(op["fail_step"], op.get("fail_kind", "RuntimeError"))
     try:
         if kind == "call":
             out = tgt.call(xarg(0, 1), **kw) if single else tgt.call(xarg(0, 1), return_states="all", **kw)
@@ -157,7 +163,7 @@ def exec_op(b, case, op, X, fs, ts, ctl):
         else:       # temporary-state context around a plain run
             with tgt.with_state(kw.get("from_state"), stateful=op["stateful"], reset=op["reset"]):
                 out = tgt.run(xarg(0, op["T"])) if single else tgt.run(xarg(0, op["T"]), return_states="all")
-    except RuntimeError as e:
+    except (RuntimeError, KeyboardInterrupt) as e:
         if "injected failure" in str(e):
             return ("raised", "injected")
         raise
